@@ -90,9 +90,11 @@ for (enc, kw), (kind, wire) in WIRE.items():
             "other_parameters_untouched": FRAME,
         },
         bounded_note="arrays <= 3 elements, objects <= 2 properties",
+        inline=True,  # inside the composed serializer (dispatch contracts below) the real bodies run
     )
     c.ghost_init = {"value0": "snapshot_value(item['p'])"}
     c.wire = wire
+    c.native_helpers = {"wire_of": (lambda _w: (lambda v: eval(_w, {"v": v})))(wire)}
     c.native_setup = (lambda _enc, _kw: (lambda args, ctx: (getattr(__import__("schemathesis.specs.openapi.serialization", fromlist=["x"]), _enc)("p", **_kw), args)))(enc, kwargs)
 
 
@@ -156,6 +158,76 @@ def _same(it, a, b):
 
 
 R.spec_funcs["same"] = _same
+
+# ------------------------------------------------------------------------------------------------- dispatch: which conversions, in which ORDER, for a parameter definition
+def _dispatch(maker, definition):
+    """setup: build the composed serializer exactly as the schema does: serialize_<spec>_parameters([definition]) -> composed."""
+
+    def setup(it):
+        from pyvc.extract import load_module
+
+        mod = load_module("schemathesis.specs.openapi.serialization")
+        mk = it.module_get(mod, maker)
+        saved = it.top_target
+        it.top_target = SER + "make_serializer"
+        try:
+            composed = it.call(mk, [[dict(definition)]], {})
+        finally:
+            it.top_target = saved
+        if composed is None:
+            raise OutOfSubset(f"no serializer for {definition}")
+        return composed, {}
+
+    return setup
+
+
+from pyvc.path import OutOfSubset  # noqa: E402
+
+ObjKV = "','.join(k + ',' + v[k] for k in v)"
+ObjEq = "','.join(k + '=' + v[k] for k in v)"
+DISPATCH = {
+    # Swagger 2.0 collectionFormat (https://swagger.io/specification/v2/#parameter-object); headers are coerced to str AFTER joining
+    **{f"swagger2:{loc}:array:{fmt}": ("serialize_swagger2_parameters", {"name": "p", "in": loc, "type": "array", **({"collectionFormat": fmt} if fmt != "default" else {})}, "array", f"{d!r}.join(v)")
+       for loc in ("query", "header", "path") for fmt, d in (("default", ","), ("csv", ","), ("ssv", " "), ("tsv", "\t"), ("pipes", "|"))},
+    # OpenAPI 3.x style table (https://spec.openapis.org/oas/v3.0.3#style-values)
+    "openapi3:header:array": ("serialize_openapi3_parameters", {"name": "p", "in": "header", "schema": {"type": "array"}}, "array", "','.join(v)"),
+    "openapi3:header:object:explode=false": ("serialize_openapi3_parameters", {"name": "p", "in": "header", "explode": False, "schema": {"type": "object"}}, "object", ObjKV),
+    "openapi3:header:object:explode=true": ("serialize_openapi3_parameters", {"name": "p", "in": "header", "explode": True, "schema": {"type": "object"}}, "object", ObjEq),
+    "openapi3:cookie:array:explode=false": ("serialize_openapi3_parameters", {"name": "p", "in": "cookie", "explode": False, "schema": {"type": "array"}}, "array", "','.join(v)"),
+    "openapi3:query:array:form:explode=false": ("serialize_openapi3_parameters", {"name": "p", "in": "query", "style": "form", "explode": False, "schema": {"type": "array"}}, "array", "','.join(v)"),
+    "openapi3:query:array:default-style:explode=false": ("serialize_openapi3_parameters", {"name": "p", "in": "query", "explode": False, "schema": {"type": "array"}}, "array", "','.join(v)"),
+    "openapi3:query:array:pipeDelimited": ("serialize_openapi3_parameters", {"name": "p", "in": "query", "style": "pipeDelimited", "explode": False, "schema": {"type": "array"}}, "array", "'|'.join(v)"),
+    "openapi3:query:array:spaceDelimited": ("serialize_openapi3_parameters", {"name": "p", "in": "query", "style": "spaceDelimited", "explode": False, "schema": {"type": "array"}}, "array", "' '.join(v)"),
+    "openapi3:query:object:form:explode=false": ("serialize_openapi3_parameters", {"name": "p", "in": "query", "style": "form", "explode": False, "schema": {"type": "object"}}, "object", ObjKV),
+    "openapi3:path:simple:array": ("serialize_openapi3_parameters", {"name": "p", "in": "path", "style": "simple", "schema": {"type": "array"}}, "array", "','.join(v)"),
+    "openapi3:path:simple:object:explode=false": ("serialize_openapi3_parameters", {"name": "p", "in": "path", "style": "simple", "explode": False, "schema": {"type": "object"}}, "object", ObjKV),
+    "openapi3:path:simple:object:explode=true": ("serialize_openapi3_parameters", {"name": "p", "in": "path", "style": "simple", "explode": True, "schema": {"type": "object"}}, "object", ObjEq),
+    "openapi3:path:label:array:explode=true": ("serialize_openapi3_parameters", {"name": "p", "in": "path", "style": "label", "explode": True, "schema": {"type": "array"}}, "array", "('.' + '.'.join(v)) if v else ''"),
+    "openapi3:path:matrix:array:explode=true": ("serialize_openapi3_parameters", {"name": "p", "in": "path", "style": "matrix", "explode": True, "schema": {"type": "array"}}, "array", "''.join(';p=' + x for x in v)"),
+}
+for vname, (maker, definition, kind, wire) in DISPATCH.items():
+    vdesc = {"array": Arr, "object": ObjV}[kind]
+    c = R.contract(
+        SER + "make_serializer.<locals>._wrapper.<locals>.composed",
+        variant=vname,
+        prop="C06",
+        setup=_dispatch(maker, definition),
+        args={"x": Item(vdesc)},
+        ensures={
+            # the conversions chosen for this definition, applied in the order they compose, give the wire form of the declared style / collectionFormat
+            "wire_form_of_the_declared_serialization": "result['p'] == wire_of(old_value()) and is_str(result['p'])",
+            "other_parameters_untouched": "implies('other' in result, result['other'] == old(dict(x))['other'])",
+        },
+        bounded_note="arrays <= 3 elements, objects <= 2 properties",
+    )
+    c.ghost_init = {"value0": "snapshot_value(x['p'])"}
+    c.wire = wire
+    c.replayable = True
+    c.native_setup = (lambda _mk, _def: (lambda args, ctx: (getattr(__import__("schemathesis.specs.openapi.serialization", fromlist=["x"]), _mk)([dict(_def)]), args)))(maker, definition)
+    c.native_helpers = {"wire_of": (lambda _w: (lambda v: eval(_w, {"v": v})))(wire)}
+if live_finding("F06c"):
+    R.contracts[SER + "make_serializer.<locals>._wrapper.<locals>.composed#openapi3:path:label:array:explode=true"].requires.append(
+        "not (length(x['p']) > 0 and all(e == '' for e in x['p']))  # EXCLUDED REGION F06c")
 
 # ------------------------------------------------------------------------------------------------- jsonify_python_specific_types: booleans / None at ANY depth
 HY = "schemathesis.specs.openapi._hypothesis:"
@@ -248,7 +320,13 @@ def _n_jsonified(v):
     return "null" if v is None else v
 
 
-NATIVE = {"helpers": {"jsonified": _n_jsonified, "deep": __import__("copy").deepcopy, "url_of": _n_url, "is_empty_dict": lambda v: isinstance(v, dict) and len(v) == 0, "same": _n_same},
+def _n_old_value():
+    from pyvc import nativelib as N
+
+    return N.GHOST["value0"]
+
+
+NATIVE = {"helpers": {"old_value": _n_old_value, "snapshot_value": __import__("copy").deepcopy, "is_str": lambda v: isinstance(v, str), "jsonified": _n_jsonified, "deep": __import__("copy").deepcopy, "url_of": _n_url, "is_empty_dict": lambda v: isinstance(v, dict) and len(v) == 0, "same": _n_same},
           "patch": {"schemathesis.transport.prepare:prepare_url": _n_url, "schemathesis.transport.requests:prepare_url": _n_url}}
 
 LEVEL_TEXT = ("Deductive: each style encoder against the wire form of the OpenAPI serialization table, serialize_case's query/cookie/method/url pass-through; "
